@@ -161,3 +161,23 @@ package dvid
 //@ func New8ByteAlignBytes
 //@   trusted
 //@   ensures fresh(result0) && fresh(result1) && len(result0) == int(numBytes)
+
+// AliasByteToUintN take &b[0]: an empty slice panics. The aliasing itself (the result shares b's
+// memory) is outside the memory model: the result is treated as a fresh slice of len(b)/N elements.
+//@ func AliasByteToUint64
+//@   trusted
+//@   requires len(b) >= 1
+//@   ensures result1 == nil ==> len(result0) * 8 == len(b) && fresh(result0)
+//@   ensures result1 != nil ==> result0 == nil
+
+//@ func AliasByteToUint32
+//@   trusted
+//@   requires len(b) >= 1
+//@   ensures result1 == nil ==> len(result0) * 4 == len(b) && fresh(result0)
+//@   ensures result1 != nil ==> result0 == nil
+
+//@ func AliasByteToUint16
+//@   trusted
+//@   requires len(b) >= 1
+//@   ensures result1 == nil ==> len(result0) * 2 == len(b) && fresh(result0)
+//@   ensures result1 != nil ==> result0 == nil
